@@ -41,9 +41,9 @@ def shards(tier):
     return [{"kind": "table", "i": i, "n": 6} for i in range(6)] + [{"kind": "deep"}, {"kind": "recorded"}]
 
 
-def candidate(D, S, height, cid):
+def candidate(D, S, height, cid, prev=b"\x11" * 32):
     cb = D.Transaction([D.Input(D.OutputReference(b"\x00" * 32, 0), S.CoinbaseData(height, b"c18"))], [D.Output(1, S.SECP256k1PublicKey(b"\x22" * 64))])
-    summ = D.BlockSummary(height, b"\x11" * 32, b"\x00" * 32, 1_700_000_000, b"\xff" * 32, 0)
+    summ = D.BlockSummary(height, prev, b"\x00" * 32, 1_700_000_000, b"\xff" * 32, 0)
     return D.Block(D.BlockHeader(summ, D.PowEvidence(b"\x00" * 32, b"\x00" * 32, b"\x00" * 32)), [cb], hash=cid)
 
 
@@ -60,9 +60,27 @@ def run_table(res, tier, seed, shard):
     if C.MAX_KNOWN_HASH_HEIGHT < cp["max_known_hash_height"]:
         res.fail("horizon", "horizon-lowered", "MAX_KNOWN_HASH_HEIGHT=%r < pinned %d" % (C.MAX_KNOWN_HASH_HEIGHT, cp["max_known_hash_height"]), {"horizon": True})
 
-    def verdict(h, cid):
+    ghash = cs.current_chain_hash
+    deep_cache = {}
+
+    def state_with_parent_at(h):
+        """a chain state whose tip sits at height h-1 (fabricated), so that the candidate's parent is PRESENT"""
+        if h not in deep_cache:
+            from vf import deepbase
+            led, tip, dcs = deepbase.make(h - 1, 1_600_000_000, b"\xff" * 32, {}, R.Config())
+            deep_cache.clear()
+            deep_cache[h] = (dcs, dcs.current_chain_hash)
+        return deep_cache[h]
+
+    def verdict(h, cid, parent="unknown"):
         try:
-            C.validate_block_in_coinstate(candidate(D, S, h, cid), cs)
+            if parent == "unknown":
+                C.validate_block_in_coinstate(candidate(D, S, h, cid), cs)
+            elif parent == "genesis":                      # parent present, but NOT at height h-1
+                C.validate_block_in_coinstate(candidate(D, S, h, cid, ghash), cs)
+            else:                                          # parent present at height h-1
+                dcs, tiph = state_with_parent_at(h)
+                C.validate_block_in_coinstate(candidate(D, S, h, cid, tiph), dcs)
             return True
         except Exception:
             return False
@@ -74,6 +92,17 @@ def run_table(res, tier, seed, shard):
             res.fail("table", "table-entry-changed", "checkpoint for height %d differs from the pinned table" % h, {"height": h, "id": good.hex()})
         if not verdict(h, good):
             res.fail("checkpoint", "right-id-refused", "candidate with the checkpoint id refused at height %d" % h, {"height": h, "id": good.hex()})
+        if h > 0:
+            bad = bytes([good[0] ^ 0x40]) + good[1:]
+            for parent in ("genesis", "at_h-1"):
+                res.evaluations += 1
+                res.nontrivial("%d:%s:%s" % (h, parent, bad.hex()[:8]))
+                if verdict(h, bad, parent):
+                    res.fail("checkpoint", "wrong-id-accepted:parent-" + parent, "candidate with a wrong id accepted at checkpoint height %d when its parent is present in the chain state (%s)" % (h, parent),
+                             {"height": h, "id": bad.hex(), "parent": parent})
+                if not verdict(h, good, parent):
+                    res.fail("checkpoint", "right-id-refused:parent-" + parent, "candidate with the checkpoint id refused at height %d (parent %s)" % (h, parent),
+                             {"height": h, "id": good.hex(), "parent": parent})
         res.count("checkpoint_heights")
 
     @hypothesis.seed(env.subseed(seed, ID, "wrong", shard["i"]))
@@ -98,6 +127,8 @@ def run_table(res, tier, seed, shard):
         res.evaluations += 1
         res.count("wrong_id_mode%d" % mode)
         res.nontrivial("%d:%s" % (h, cid.hex()))
+        if h > 0 and bit % 3 == 0 and verdict(h, cid, "genesis"):
+            res.fail("checkpoint", "wrong-id-accepted:parent-genesis", "candidate with id %s accepted at checkpoint height %d (parent present: genesis)" % (cid.hex(), h), {"height": h, "id": cid.hex(), "parent": "genesis"})
         if verdict(h, cid):
             res.fail("checkpoint", "wrong-id-accepted", "candidate with id %s accepted at checkpoint height %d" % (cid.hex(), h), {"height": h, "id": cid.hex()})
 
@@ -246,8 +277,36 @@ def run_recorded(res, tier, seed):
             res.fail("kat", "blake2-kat", "hash.blake2 differs from the recorded evidence hash of %s" % name, case)
         if H.sha256d(rblk.header_raw()).hex() != want_id:
             res.fail("kat", "sha256d-kat", "hash.sha256d differs on %s" % name, case)
+    # the real blocks stay valid when a rival branch is the node's current head (the evidence and the target must be
+    # derived from the block's OWN ancestors): for every real block k and every fork point j < k a fabricated longer
+    # rival branch is made the head first
+    from vf import build as b
+    names = sorted(rb["blocks"])
+    real = [Block.deserialize(bytes.fromhex(rb["blocks"][n])) for n in names]
+    for k in range(1, len(real)):
+        for j in range(0, k + 1):
+            cs2 = CoinState.zero()
+            for x in real[:k]:
+                cs2 = cs2.add_block_no_validation(x)
+            parent = cs2.block_by_hash[real[j - 1].hash()] if j > 0 else cs2.block_by_hash[g.hash()]
+            prev, h0, ts0 = parent.hash(), parent.height, parent.timestamp
+            for r_ in range(k + 2 - j + 1):
+                cb = R.RTx([(R.NULL32, 0, ("cb", h0 + 1 + r_, b"rival%d.%d.%d" % (k, j, r_)))], [(10 ** 9, bytes(64))])
+                rb_ = R.RBlock(h0 + 1 + r_, prev, R.merkle_root([cb.id()]), ts0 + 1 + r_, real[0].target, r_, (R.NULL32,) * 3, [cb])
+                cs2 = cs2.add_block_no_validation(b.to_sk_block(rb_))
+                prev = rb_.id()
+            res.evaluations += 1
+            res.nontrivial("rival:%d:%d" % (k, j))
+            if cs2.current_chain_hash == real[k - 1].hash():
+                raise env.HarnessError("rival branch did not become the head")
+            try:
+                cs2.add_block(real[k], real[k].timestamp)
+            except Exception as e:
+                res.fail("recorded", "recorded-block-rejected-with-rival-head", "recorded real block %s is refused (%r) when a rival branch forking after height %d is the current head" % (names[k], e, j),
+                         {"recorded": names[k], "rival_fork": j})
     res.exhaustive = True
-    res.sample({"recorded_blocks": sorted(rb["blocks"]), "scrypt": "real (N=2^15, r=8, p=1)", "horizon": "lowered to -1 so that full validation runs"})
+    res.sample({"recorded_blocks": sorted(rb["blocks"]), "scrypt": "real (N=2^15, r=8, p=1)", "horizon": "lowered to -1 so that full validation runs",
+                "rival_heads": "every real block k validated with a fabricated longer branch forking at every j <= k as the current head"})
 
 
 def run(shard, tier, seed):
@@ -267,6 +326,8 @@ def replay(case):
         run_recorded(res, "quick", 1)
     elif "deep" in case:
         run_deep(res, "quick", 1)
+    elif "height" in case and "parent" in case:
+        run_table(res, "quick", 1, {"i": 0, "n": 1})
     elif "height" in case:
         env.import_repo()
         from skepticoin import datatypes as D, signing as S, consensus as C
